@@ -185,6 +185,9 @@ def conditions(tier):
     return cs
 
 
+# validate() compares the real implementation with the property itself
+VALIDATION_CHECKS_PROPERTY = True
+
 ASSUMPTIONS = [
     'open(2) returns ENXIO/EOPNOTSUPP only for FIFOs, sockets and device nodes',
     'one fault per run; the failing call raises OSError(errno) and has no other effect',
